@@ -132,7 +132,13 @@ class Rig:
         as_bytes = Message.__dict__["as_bytes"]
         ab_code = as_bytes.__code__
         ab_first = min(l for _, _, l in ab_code.co_lines() if l is not None and l > ab_code.co_firstlineno)
-        self.codes = [pm.PeerConnection.add_out_msg.__code__, ww.__code__, pm.PeerConnection.remove_out_bytes.__code__,
+        # the harness wraps add_out_msg (boundary event); the scheduling points are the lines of the library's own
+        # function, so that "put into the queue" and "the call returned" stay in one step of the caller
+        aom = pm.PeerConnection.add_out_msg
+        aom = getattr(aom, "__wrapped__", aom)
+        if "_write_msg_queue" not in inspect.getsource(aom):
+            raise RuntimeError("add_out_msg: the library's own function was not found")
+        self.codes = [aom.__code__, ww.__code__, pm.PeerConnection.remove_out_bytes.__code__,
                       hc.__code__, ab_code]
         # the first line of Message.as_bytes splits the read of the old buffer from the write of the new one
         window = {hc.__code__: io_lines, ww.__code__: w_lines, ab_code: {ab_first}}
@@ -323,6 +329,7 @@ def run_stress(spec):
     y = Yielder(spec["p"], h64("C15y", spec["seed"], spec["name"]))
     evals = 0
     delivered_faults = 0
+    paced_runs = 0
     try:
         w.start()
         sp = h.inbound(ip="10.1.0.1", port=50000)
@@ -352,8 +359,23 @@ def run_stress(spec):
                     m = make_msg(f"r{run};t{ti};m{k}", bad=bad)
                     msgs[(ti, k)] = (m, None if bad else m.as_bytes())
 
+            # every third run the producers are paced, so that the write thread catches up and goes back to waiting
+            # between two calls (the hand-over "queue empty -> wait" is then exercised at every message, not only
+            # once per burst)
+            # (paced by sleeping, or by giving the processor away a few times, which keeps the producer runnable so
+            # that it is the one to run whenever the write thread is made to yield)
+            pace = [0, rng.choice([0.0001, 0.0003, 0.001]), -rng.choice([3, 10, 30])][run % 3]
+            gaps = {(ti, k): rng.random() * pace for ti in range(3) for k in range(6)}
+            if pace:
+                paced_runs += 1
+
             def body(ti):
                 for k in range(6):
+                    if pace > 0:
+                        time.sleep(gaps[(ti, k)])
+                    elif pace < 0:
+                        for _ in range(int(-gaps[(ti, k)])):
+                            time.sleep(0)
                     conn.add_out_msg(msgs[(ti, k)][0])
 
             ths = [threading.Thread(target=body, args=(ti,)) for ti in range(3)]
@@ -407,7 +429,7 @@ def run_stress(spec):
         w.teardown()
     return {"evaluations": evals, "hashes": sorted(hashes), "witnesses": wit,
             "samples": [{"stress_runs": evals, "messages_per_run": 18, "p_yield": spec["p"]}],
-            "coverage": {"stress_runs": evals, "yields_injected": y.yields, "write_plan_entries_delivered": delivered_faults}}
+            "coverage": {"stress_runs": evals, "stress_runs_with_paced_producers": paced_runs, "yields_injected": y.yields, "write_plan_entries_delivered": delivered_faults}}
 
 
 def run_shard(spec):
